@@ -5,12 +5,12 @@ import json, os, re, shutil, sys, glob
 conf = {}
 for f in glob.glob('/tmp/mxout/confirm*.log') + glob.glob('/verif/seeded/confirm*.log'):
     for l in open(f):
-        m = re.match(r'((?:R\d)?C\d\d[AB]): (.*)', l.strip())
+        m = re.match(r'((?:R\d+)?C\d\d[AB]): (.*)', l.strip())
         if m: conf[m.group(1)] = m.group(2)
 for f in glob.glob('/verif/seeded/confirm17*.log'):
     cur = None
     for l in open(f):
-        m = re.match(r'((?:R\d)?C17[AB]) suite failing lines: (\d+)', l.strip())
+        m = re.match(r'((?:R\d+)?C17[AB]) suite failing lines: (\d+)', l.strip())
         if m: cur = m.group(1); conf[cur] = f'suite failing lines: {m.group(2)}'
         elif cur and l.startswith('  '): conf[cur] += ' | ' + re.sub(r'; 0 ignored.*', '', l.strip())
 matrix = {}
@@ -24,7 +24,7 @@ def needs(readme):
     hit = [l for l in ls if re.search(r'(?i)\b(trigger|manifest|needs|only when|only shows|only for|requires)\b', l) and len(l) > 30]
     return ' '.join(hit[:3])[:700] if hit else ' '.join(ls[:6])[:500]
 rows = []
-for name in sorted(set(conf) | {n for n in matrix if re.match(r'(R\d)?C\d\d[AB]$', n)}):
+for name in sorted(set(conf) | {n for n in matrix if re.match(r'(R\d+)?C\d\d[AB]$', n)}):
     rnd = name[:-4]; r2 = bool(rnd); pid = name[-4:-1]; ab = name[-1]
     src = f'/tmp/wt{rnd[1:] if rnd else ""}/{pid}/MUTANT/{ab}'
     dst = f'/verif/seeded/{name}'
